@@ -29,7 +29,11 @@ explorers' by `propose` / `accept` / `revert`), and for every order in which Go'
                                        row is the PN row plus the DN row cell by cell;
 * `action_cell_is_action_state`, `action_matrix_determines_flags`, `action_cell_sound`
                                        the management-actions file: the cell of an action's unit and type is that action's
-                                       state, the file determines the action set, no cell is 1 without an active action.
+                                       state, the file determines the action set, no cell is 1 without an active action;
+* `written_figures_history_independent`, `written_figures_are_of_fresh_model`
+                                       C01 seen from the files: two conformant histories ending in the same active set write
+                                       the same decision variables, detail rows and action matrix — those of a fresh model
+                                       loaded with that set.
 
 Exact in ℚ (DESIGN 3.1); the tie to the Go code is the `enc` operation of the `catchment-walk` protocol (the real
 `MakeEncodeable` / `SolutionBuilder` on the walked model against `solutionVariables`, line by line) and the direct
@@ -253,6 +257,50 @@ example : KeysDistinct exData.acts := by decide +kernel
 example :
     let a : Action := { pu := 1, typ := .gully, k := default }
     actionMatrix [a, a] [true, false] [1] = actionMatrix [a, a] [false, true] [1] := by decide +kernel
+
+/-! ## History independence of what is written (C01 seen from the files) -/
+
+/-- the encodeable variable is a function of the totals and per-unit values alone -/
+theorem makeEncodeable_congr {s₁ s₂ : State} (units : List PU) (v : VarId)
+    (ht : total s₁ v = total s₂ v) (hu : ∀ p, unitVal s₁ v p = unitVal s₂ v p) :
+    makeEncodeable units s₁ v = makeEncodeable units s₂ v := by
+  unfold makeEncodeable
+  rw [ht, show unitVal s₁ v = unitVal s₂ v from funext hu]
+
+/-- **two histories that end in the same active set write the same files**: the decision variables of the solution, the
+numeric content of the detail file and the management-actions file are identical — whatever was proposed, accepted,
+reverted, set, re-initialised or randomised on the way (conformant histories, C01) -/
+theorem written_figures_history_independent {D : Data} (hI : InitConsistent D) (hK : KeysDistinct D.acts)
+    (h₁ h₂ : List Tx) (hf : (run D h₁).flags = (run D h₂).flags) (units pus : List PU) :
+    solutionVariables units (run D h₁) = solutionVariables units (run D h₂) ∧
+    detailRows units pus (run D h₁) = detailRows units pus (run D h₂) ∧
+    actionMatrix D.acts (run D h₁).flags pus = actionMatrix D.acts (run D h₂).flags pus := by
+  have hv := history_independent hI hK h₁ h₂ hf
+  have hs : solutionVariables units (run D h₁) = solutionVariables units (run D h₂) := by
+    unfold solutionVariables
+    apply List.map_congr_left
+    intro v _
+    exact makeEncodeable_congr units v (hv v 0).1 (fun p => (hv v p).2)
+  refine ⟨hs, ?_, by rw [hf]⟩
+  unfold detailRows
+  rw [hs]
+
+/-- **… and they are the files of a freshly initialised model to which exactly that set is applied** -/
+theorem written_figures_are_of_fresh_model {D : Data} (hI : InitConsistent D) (hK : KeysDistinct D.acts)
+    (txs : List Tx) (units pus : List PU) :
+    solutionVariables units (run D txs) = solutionVariables units (setAll D (init D) (run D txs).flags) ∧
+    detailRows units pus (run D txs) = detailRows units pus (setAll D (init D) (run D txs).flags) ∧
+    actionMatrix D.acts (run D txs).flags pus =
+      actionMatrix D.acts (setAll D (init D) (run D txs).flags).flags pus := by
+  obtain ⟨hfl, hv⟩ := equals_fresh_model hI hK txs
+  have hs : solutionVariables units (run D txs) = solutionVariables units (setAll D (init D) (run D txs).flags) := by
+    unfold solutionVariables
+    apply List.map_congr_left
+    intro v _
+    exact makeEncodeable_congr units v (hv v 0).1 (fun p => (hv v p).2)
+  refine ⟨hs, ?_, by rw [hfl]⟩
+  unfold detailRows
+  rw [hs]
 
 /-! Non-vacuity / sanity (tests, labelled as such) on the C01 dataset: a state after a misuse history, the map
 yielding the units backwards; a unit whose share is zero is dropped from the list and still read as 0. -/
